@@ -432,6 +432,35 @@ pub fn run(rep: &mut Report, thorough: bool) {
         &mut rep.sink,
     );
     rep.stage("leading-garbage", "8 leading byte strings (some killing the matcher, some keeping it alive) x TCP payloads x 4 segmentations x {v4,v6}: judged by the reference stream model", engine::product(&gdims), t0);
+    // the decision for a connection whose signature is cut across segments does not depend on how
+    // many OTHER connections were identified in between (66 000 of them, one process)
+    {
+        let t0 = std::time::Instant::now();
+        let f = &flows[0];
+        let c = cookies.get(&key_of(f)).copied().unwrap_or(0).wrapping_add(1);
+        let req: &[u8] = b"GET / HTTP/1.1\r\n\r\n";
+        let head = vec![f.tcp(1000, c, crate::wire::F_PSH | crate::wire::F_ACK, &req[..2])];
+        let tail = vec![f.tcp(1002, c, crate::wire::F_PSH | crate::wire::F_ACK, &req[2..])];
+        match crate::props::c07::capacity_run(&cfg, &head, 66000, &tail) {
+            Ok((h, t)) => {
+                rep.sink.count("frames", 66002);
+                let data = t[0].reply.as_deref().and_then(crate::mask::app_payload).map(|(_, p)| p).unwrap_or_default();
+                if h[0].reply.is_some() && responder_of(&data) != "http" {
+                    rep.sink.violation(Violation {
+                        prop: "C10".into(),
+                        key: "decision-depends-on-other-connections".into(),
+                        what: format!("stream 'GE' | 'T / HTTP/1.1 CRLF CRLF' is not answered by the HTTP responder when 66000 other connections are identified between the two segments (got {} bytes: {})", data.len(), crate::wire::hex(&data[..data.len().min(24)])),
+                        cfg: cfg.clone(),
+                        cmds: vec![Cmd::Frame(head[0].clone()), Cmd::Frame(tail[0].clone())],
+                        idx: 0,
+                        stage: "many-connections".into(),
+                    });
+                }
+            }
+            Err(e) => rep.sink.machinery_errors.push(e),
+        }
+        rep.stage("many-connections", "signature cut across two segments with 66000 other connections identified in between: same decision", 66002, t0);
+    }
     // near misses at the observable level: datagrams / first segments whose leading bytes complete
     // NO published signature (one literal byte of the signature altered; or, for the end-anchored
     // forms, trailing bytes after a complete match) must not be answered by a signature-dispatched
